@@ -11,11 +11,11 @@ import (
 )
 
 // Generated-definition checks 291 (C02) / 1691 (C16) / 1791 (C17): the REAL conv/j2t toFlags against gen/Gen_j2tflags.toFlags.
-// All 512 settings of the nine options toFlags looks at, each with every other option off and with random settings of the
+// All 1024 settings of the ten options toFlags looks at, each with every other option off and with random settings of the
 // remaining options (which must not influence the word); the word a converter really hands to the native code
 // (NewBinaryConv / SetOptions) must be the same.
 var toFlagsOrder = []string{"WriteDefaultField", "DisallowUnknownField", "EnableValueMapping", "EnableHttpMapping", "String2Int64",
-	"WriteRequireField", "NoBase64Binary", "WriteOptionalField", "ReadHttpValueFallback"}
+	"WriteRequireField", "NoBase64Binary", "WriteOptionalField", "ReadHttpValueFallback", "TracebackRequredOrRootFields"}
 
 func init() {
 	for _, p := range []struct {
@@ -37,7 +37,7 @@ func genToFlags(r *rng, id int) {
 	for i, n := range toFlagsOrder {
 		known[n] = i
 	}
-	for b := 0; b < 512; b++ {
+	for b := 0; b < 1<<uint(len(toFlagsOrder)); b++ {
 		for rep := 0; rep < 3; rep++ {
 			var o conv.Options
 			v := reflect.ValueOf(&o).Elem()
